@@ -233,7 +233,7 @@ func (o *Observer) readList(n datamodel.Node, path string) Val {
 			kids = append(kids, c)
 			if o.Full {
 				// read right away too: a node handed out by Next reads the same after the iterator moved on
-				early = append(early, (&Observer{}).Read(c, ""))
+				early = append(early, (&Observer{Typed: o.Typed}).Read(c, ""))
 			}
 			if i > 1<<20 {
 				o.inc("iterator-unbounded", "at %q", path)
@@ -313,7 +313,7 @@ func (o *Observer) keyOf(kn datamodel.Node, path string) string {
 		}
 		o.inc("complex-key-without-string-representation", "at %q: %v", path, err)
 	}
-	sub := &Observer{}
+	sub := &Observer{Typed: o.Typed}
 	kv := sub.Read(kn, path+"/<key>")
 	return "\x00complex:" + kv.Key()
 }
@@ -337,7 +337,7 @@ func (o *Observer) readMap(n datamodel.Node, path string) Val {
 			}
 			kids = append(kids, kv{k, c})
 			if o.Full {
-				early = append(early, (&Observer{}).Read(c, ""))
+				early = append(early, (&Observer{Typed: o.Typed}).Read(c, ""))
 			}
 			if i > 1<<20 {
 				o.inc("iterator-unbounded", "at %q", path)
@@ -425,7 +425,7 @@ func (o *Observer) lookupAgree(path, form string, want Val, fn func() (datamodel
 			}
 			return
 		}
-		sub := &Observer{}
+		sub := &Observer{Typed: o.Typed}
 		got := sub.Read(c, path)
 		if !Equal(got, want) {
 			o.inc("lookup≠iter("+form+")", "at %q: iteration gives %s, lookup gives %s", path, want, got)
